@@ -44,6 +44,16 @@ def generate(rng, tier):
                 for flags in (0, F['COMMENTS']):
                     n += 1
                     yield scenario('m%d' % n, b' '.join(toks), mod, flags, 'insert/%s' % ('on' if flags else 'off'), inside)
+    # a comment put DIRECTLY behind a token, with no white space in between (the property says: between any two tokens)
+    for text in TEXTS[:4]:
+        toks = TOKEN.findall(text)
+        for k in range(1, len(toks) + 1):
+            for cm in (b'/* c */', b'/**/', b'// c\n', b'# c\n'):
+                mod = b' '.join(toks[:k]) + cm + b' ' + b' '.join(toks[k:])
+                n += 1
+                sc = scenario('j%d' % n, b' '.join(toks), mod, 0, 'insert-adjacent', True)
+                sc.meta['adjacent'] = ('word' if re.fullmatch(rb'[\w.]+', toks[k - 1]) else 'punct') + ':' + cm[:2].decode()
+                yield sc
     # extra white space between any two tokens
     for text in TEXTS[:4]:
         toks = TOKEN.findall(text)
@@ -96,6 +106,10 @@ def oracle(scn, il):
             return [('no-result', scn.id)]
         base, mod, d0, d1 = body[-4:]
         rc0, rc1 = re.search(r'rc=(\S+)', base).group(1), re.search(r'rc=(\S+)', mod).group(1)
+        adj = scn.meta.get('adjacent')
+        if adj and (rc0 != rc1 or (rc0 == '0' and strip_cmt(d0)[5:] != strip_cmt(d1)[5:])):
+            return [('adjacent-comment:' + adj, '%s: a comment directly behind a token (no white space) changes the result: rc %s -> %s: %s\n %s\n %s' % (
+                scn.id, rc0, rc1, show(scn.lines[-3]), d0[:300], d1[:300]))]
         if rc0 != rc1:
             out.append(('acceptance-changed', '%s: rc %s without, %s with the insertion: %s' % (scn.id, rc0, rc1, show(scn.lines[-3]))))
         elif rc0 == '0' and strip_cmt(d0)[5:] != strip_cmt(d1)[5:]:
